@@ -11,7 +11,7 @@
    closed. A request has [q_gate = true] when it came through SendMessage / SendNoWait / Shutdown (they
    wait for c.ready); negotiate's internal sends have [q_gate = false]. *)
 From Coq Require Import NArith List Bool.
-From LLRP Require Import Client.Types Client.Model Client.InvC08 Client.InvC08Gate Client.C08Proofs.
+From LLRP Require Import Client.Types Client.Model Client.InvC08 Client.InvC08Gate Client.C08Proofs Client.C08Timeout.
 Import ListNotations.
 Open Scope N_scope.
 
@@ -35,6 +35,29 @@ Theorem C08_no_first_message_fails : forall cfg s, phase s = PCheckInitial ->
   let s' := step cfg s ConnFirstFail in phase s' = PReturned CErrInit /\ closed s' = true.
 Proof. exact no_first_message_fails. Qed.
 Print Assumptions C08_no_first_message_fails.
+
+(* the read deadline (client built WithTimeout) as an environment event: in EVERY state in which the client is reading — Connect in
+   checkInitialMessage, before any loop exists, as well as the read loop — the timeout is enabled and ends that read with an error:
+   in the initial check Connect fails, the client is closed, nothing has been or is written; in the read loop the loop reports its
+   error (the orderly end after CloseConnectionResponse, [saw_close], is C09's business). A reader that accepts the connection and
+   then sends nothing, or part of a message, cannot hold a client that has a timeout. *)
+Theorem C08_read_timeout_ends_every_read : forall cfg s,
+  (phase s = PCheckInitial ->
+     let s' := step cfg s ConnFirstFail in
+     phase s' = PReturned CErrInit /\ closed s' = true /\ ready s' = true /\ out s' = out s /\ wire s' = wire s) /\
+  (reader s = RRead -> saw_close s = false ->
+     forall p, p = EofBoundary \/ p = EofMidHeader ->
+     let s' := step cfg s (PeerEOF p) in reader s' = RDead /\ errs s' = errs s ++ [ERead]).
+Proof. exact read_timeout_ends_every_read. Qed.
+Print Assumptions C08_read_timeout_ends_every_read.
+
+Theorem C08_first_read_timeout_over_runs : forall cfg evs,
+  let s := run cfg evs in
+  phase s = PCheckInitial ->
+  let s' := step cfg s ConnFirstFail in
+  phase s' = PReturned CErrInit /\ closed s' = true /\ out s' = [] /\ wire s' = [].
+Proof. exact first_read_timeout_over_runs. Qed.
+Print Assumptions C08_first_read_timeout_over_runs.
 
 (* over every run: Connect is past the initial check exactly when frame 0 of the inbound stream
    passes it; and when the check failed, frame 0 (if there is one) does not pass it and no other
